@@ -8,6 +8,7 @@ pub mod c02;
 pub mod c03;
 pub mod c04;
 pub mod c05;
+pub mod c06;
 pub mod c07;
 pub mod c08;
 pub mod c11;
@@ -33,7 +34,7 @@ pub struct PropDef {
 }
 
 pub fn all() -> Vec<PropDef> {
-    vec![c01::def(), c02::def(), c03::def(), c04::def(), c05::def(), c07::def(), c08::def(), c11::def(), c13::def(), c14::def(), c15::def(), c16::def()]
+    vec![c01::def(), c02::def(), c03::def(), c04::def(), c05::def(), c06::def(), c07::def(), c08::def(), c11::def(), c13::def(), c14::def(), c15::def(), c16::def()]
 }
 
 pub fn find(id: &str) -> Option<PropDef> {
